@@ -5,10 +5,10 @@ package main
 
 import (
 	"fmt"
-	"os"
 	"go/ast"
 	"go/token"
 	"go/types"
+	"os"
 	"sort"
 	"strings"
 
@@ -61,18 +61,18 @@ type Loop struct {
 }
 
 type FnExec struct {
-	eng     *Engine
-	fn      *ssa.Function
-	fc      *FuncContract
-	entry   *State
-	params  map[string]Val
-	loops   map[*ssa.Function][]*Loop
-	paths   int
-	maxPath int
-	inputs  []InputTerm
-	props   []string // properties of all clauses of this function (for safety obligations)
-	unsupported []string
-	frameN  int
+	eng          *Engine
+	fn           *ssa.Function
+	fc           *FuncContract
+	entry        *State
+	params       map[string]Val
+	loops        map[*ssa.Function][]*Loop
+	paths        int
+	maxPath      int
+	inputs       []InputTerm
+	props        []string // properties of all clauses of this function (for safety obligations)
+	unsupported  []string
+	frameN       int
 	merge        bool
 	pending      map[string]*pendingJoin
 	pendingOrder []string
@@ -285,7 +285,7 @@ func (fx *FnExec) run() {
 	}
 	if fx.fc != nil {
 		for _, g := range fx.fc.Ghosts {
-			st.ghost["fg:"+fx.fc.Key+":"+g] = eng.fresh(st, "ghost_"+g, "(Array Int Int)")
+			st.ghost["fg:"+fx.fc.Key+":"+g] = eng.fresh(st, "ghost_"+g, fx.fc.ghostSort(g))
 		}
 	}
 	fx.entry = st.fork()
@@ -367,6 +367,10 @@ func (fx *FnExec) checkPost(st *State, res []Val) {
 	for _, c := range fx.fc.Ensures {
 		if c.Kind == "ensures" && strings.HasPrefix(c.Name, "ghost.") {
 			continue // ghost naming clauses are definitions, assumed by callers only
+		}
+		if c.Trusted {
+			fx.eng.assumptions["TRUSTED postcondition "+c.Func+"/"+c.Name+": assumed by callers, not proved from the body (see the bounded check of that function)"] = true
+			continue
 		}
 		f, err := fx.safeTr(env, c)
 		if err != nil {
@@ -930,7 +934,8 @@ func isRangeIndexPhi(ph *ssa.Phi) bool {
 }
 
 // rangeBound returns the loop-invariant bound of a range-over-slice loop: header is
-//   t1 = phi+1; t2 = t1 < bound; if t2 ...
+//
+//	t1 = phi+1; t2 = t1 < bound; if t2 ...
 func rangeBound(lp *Loop, ph *ssa.Phi) ssa.Value {
 	var inc *ssa.BinOp
 	for _, in := range lp.header.Instrs {
@@ -948,6 +953,13 @@ func rangeBound(lp *Loop, ph *ssa.Phi) ssa.Value {
 		}
 	}
 	return nil
+}
+
+func (fc *FuncContract) ghostSort(name string) string {
+	if s, ok := fc.GhostSort[name]; ok {
+		return s
+	}
+	return "(Array Int Int)"
 }
 
 // ghostUpdates executes the "loop k ghost G[idx] = val" clauses when the body of loop k is entered.
@@ -976,10 +988,17 @@ func (fx *FnExec) ghostUpdates(st *State, lp *Loop) {
 					panic(r)
 				}
 			}()
-			iv, vv = env.tr(gu.Idx), env.tr(gu.Val)
+			if gu.Idx != nil {
+				iv = env.tr(gu.Idx)
+			}
+			vv = env.tr(gu.Val)
 		}()
-		n := fx.eng.fresh(st, "ghost_"+gu.Name, "(Array Int Int)")
-		st.assume("(= " + n + " " + store(cur, iv.T, vv.T) + ")")
+		n := fx.eng.fresh(st, "ghost_"+gu.Name, fc.ghostSort(gu.Name))
+		if gu.Idx != nil {
+			st.assume("(= " + n + " " + store(cur, iv.T, vv.T) + ")")
+		} else {
+			st.assume("(= " + n + " " + vv.T + ")")
+		}
 		st.ghost[key] = n
 	}
 }
@@ -1070,7 +1089,7 @@ func (fx *FnExec) havocLoop(st *State, lp *Loop) {
 				}
 			}
 			if inner {
-				st.ghost["fg:"+fc.Key+":"+gu.Name] = eng.fresh(st, "ghost_"+gu.Name, "(Array Int Int)")
+				st.ghost["fg:"+fc.Key+":"+gu.Name] = eng.fresh(st, "ghost_"+gu.Name, fc.ghostSort(gu.Name))
 			}
 		}
 	}
